@@ -9,6 +9,7 @@ outputs; the transposes; the block-wise inverse; the reduced products.
 from __future__ import annotations
 
 import jax
+import jax.numpy as jnp
 import numpy as np
 import scipy.linalg as sl
 
@@ -152,20 +153,59 @@ def one_case(ctx: Ctx, stream: str, i: int) -> None:
 
 
 def mismatch_case(ctx: Ctx, stream: str, i: int) -> None:
+    """blocks whose SHARED structures (outputs of a row, inputs of a column) differ are refused at construction: the
+    difference may be the size, the shape at equal size, ONLY the dtype of a leaf, the container kind, the dict keys or
+    the number of leaves; the odd block stands at any position of a list, a dict or a nested container"""
     from furax._base.blocks import BlockColumnOperator, BlockRowOperator
+    from furax._base.core import IdentityOperator
     rng = ctx.rng(stream, i)
-    s1, s2 = gen.S(2), gen.S(3)
-    a, b = gen.gen_endo(rng, s1, 0), gen.gen_endo(rng, s2, 0)
+    f32 = jnp.float32
+    kinds = {
+        'size': (gen.S(2), gen.S(3)),
+        'shape-same-size': (gen.S(2, 3), gen.S(3, 2)),
+        'rank-same-size': (gen.S(6), gen.S(2, 3)),
+        'dtype-int': (gen.S(3), gen.S(3, dtype=jnp.int32)),
+        'dtype-half': (gen.S(3), gen.S(3, dtype=jnp.float16)),
+        'dtype-complex': (gen.S(2, 2), gen.S(2, 2, dtype=jnp.complex64)),
+        'dtype-one-leaf-of-pytree': ({'a': gen.S(2), 'b': gen.S(3)}, {'a': gen.S(2), 'b': gen.S(3, dtype=jnp.float16)}),
+        'container-kind': ([gen.S(2), gen.S(2)], (gen.S(2), gen.S(2))),
+        'dict-keys': ({'a': gen.S(2), 'b': gen.S(2)}, {'a': gen.S(2), 'c': gen.S(2)}),
+        'leaf-count': ([gen.S(2)], [gen.S(2), gen.S(2)]),
+    }
+    if jax.config.jax_enable_x64:
+        kinds['dtype-double'] = (gen.S(3), gen.S(3, dtype=jnp.float64))
+    names = sorted(kinds)
+    kind = names[i % len(names)]
+    s1, s2 = kinds[kind]
+
+    def endo(s):
+        o = gen.gen_endo(rng, s, 0) if all(np.dtype(l.dtype) == np.dtype(f32) for l in jax.tree.leaves(s)) else None
+        return o if o is not None else IdentityOperator(s)
+    nblocks = rng.choice([2, 2, 3, 4])
+    odd = rng.randrange(nblocks)
+    blocks = [endo(s2) if k == odd else endo(s1) for k in range(nblocks)]
+    form = rng.choice(['list', 'tuple', 'dict', 'nested'])
+    if form == 'list':
+        cont = list(blocks)
+    elif form == 'tuple':
+        cont = tuple(blocks)
+    elif form == 'dict':
+        cont = {['q', 'a', 'm', 'c'][k]: b for k, b in enumerate(blocks)}
+    else:
+        cont = {'z': blocks[:1], 'a': tuple(blocks[1:])}
+    cfg = {'mismatch': kind, 'blocks': nblocks, 'odd_block_at': odd, 'container': form}
     for cls, name in ((BlockRowOperator, 'BlockRowOperator'), (BlockColumnOperator, 'BlockColumnOperator')):
-        st, op = safe(cls, [a, b])
-        enc = Encoder()
-        rep = ctx.model.ask(['block-ctor', name, [enc.op(a), enc.op(b)]])
+        st, op = safe(cls, cont)
         if st != 'ValueError':
-            ctx.fail(stream, i, f'block-ctor-accepts-mismatch:{name}', f'{name} of blocks with different shared structures → {st}', {})
-        if rep[0] != 'error':
-            ctx.disagree(stream, i, f'{name} ctor: model {rep}', {})
-    ctx.case(f'mismatch:{i}', True, sample={'mismatch': [type(a).__name__, type(b).__name__]})
-    ctx.count('mismatch')
+            ctx.fail(stream, i, f'block-ctor-accepts-mismatch:{name}:{kind}', f'{name} of {nblocks} blocks ({form}) whose shared '
+                     f'structures differ by {kind} (block {odd}) → {st}', cfg)
+        if form == 'list':
+            enc = Encoder()
+            rep = ctx.model.ask(['block-ctor', name, [enc.op(b) for b in blocks]])
+            if rep[0] != 'error':
+                ctx.disagree(stream, i, f'{name} ctor ({kind}): model {rep}', cfg)
+    ctx.case(f'mismatch:{kind}:{nblocks}:{odd}:{form}', True, sample=cfg)
+    ctx.count('mismatch:' + kind)
 
 
 def product_case(ctx: Ctx, stream: str, i: int) -> None:
@@ -272,7 +312,7 @@ def run(ctx: Ctx) -> None:
     for i in range(160 if q else 3000):
         if ctx.want('block', i):
             one_case(ctx, 'block', i)
-    for i in range(8 if q else 50):
+    for i in range(44 if q else 440):
         if ctx.want('mismatch', i):
             mismatch_case(ctx, 'mismatch', i)
     for i in range(80 if q else 1500):
